@@ -10,6 +10,16 @@
      x.remove(e)                       runs the translated DependencyList.remove with self := x, then x := final self
      for i in s._lists: ...            (SForField) every element is bound to i, the body may mutate i, the final i
                                        is stored back in place -- what iterating over a list of deques does
+     for i, j in zip(s._lists, e): ... (SForFieldZip) the same, j running over the list e evaluates to BEFORE the loop
+                                       starts; the loop ends with the shorter of the two
+   Further constructs and their meaning:
+     a if c else b                     (EIfExp) c is evaluated first, then only the chosen branch
+     continue                          (SContinue) ends the current pass of the innermost loop
+     while c: B   (no else)            is translated as  while True: (if c: pass else: break); B
+     [a, *b, c]                        is translated as  [a] + b + [c]
+     f(e)                              (EHelper k e) a call of the k-th other module-level function of mro.py that takes one
+                                       positional parameter; its body is translated like the others, it may read its
+                                       argument (properties, `in`) but not mutate it and not call anything else
    This is sound for mro.py because no two live names denote the same mutable object across a mutation
    except (receiver, self) and (element, loop variable), which are exactly the two written back; the
    translator refuses mutations anywhere else.
@@ -44,7 +54,7 @@ Definition exn_eqb (a b : exn) : bool :=
 Inductive prop := PHead | PTail | PHeads | PTails | PExhausted.
 
 Inductive expr : Type :=
-| ENone | ETrue | EInt (n : nat) | ENil                 (* None, True, literal int, [] *)
+| ENone | ETrue | EFalse | EInt (n : nat) | ENil        (* None, True, False, literal int, [] *)
 | EVar (x : var)
 | EList1 (e : expr)                                     (* [e] *)
 | EField (e : expr)                                     (* e._lists *)
@@ -61,6 +71,8 @@ Inductive expr : Type :=
 | EAny (e : expr) | EAll (e : expr)
 | EComp (x : var) (body src : expr)                     (* [body for x in src]  /  map(lambda x: body, src) *)
 | EConcat (a b : expr)                                  (* a + b *)
+| EIfExp (c a b : expr)                                 (* a if c else b *)
+| EHelper (k : nat) (e : expr)                          (* <k-th helper function>(e) *)
 | EGetbases (e : expr)                                  (* getbases(e) *)
 | ECallMro (e : expr)                                   (* mro(e, getbases) *)
 | ECallMerge (args : expr).                             (* _merge( *args ) *)
@@ -77,7 +89,9 @@ Inductive stmt : Type :=
 | SWhileTrue (body : stmt)
 | SFor (x : var) (src : expr) (body orelse : stmt)      (* for x in src: body  else: orelse *)
 | SForField (x : var) (s : var) (body : stmt)           (* for x in s._lists: body   (x may be mutated in place) *)
+| SForFieldZip (x y : var) (s : var) (e : expr) (body : stmt)   (* for x, y in zip(s._lists, e): body *)
 | SBreak
+| SContinue
 | SReturn (e : expr)
 | SRaise (x : exn)
 | STry (body : stmt) (ks : list exn) (handler : stmt).  (* try: body  except (ks): handler *)
@@ -150,12 +164,14 @@ Section Exec.
   Variable getbases_sem : cls -> list cls.
   Variable mro_sem : cls -> mres.                          (* the recursive call *)
   Variable merge_sem : list value -> eres.
+  Variable helper_sem : nat -> value -> eres.              (* the k-th helper function applied to one argument *)
   Variable wfuel : nat.                                    (* iterations allowed to each `while True` *)
 
   Fixpoint eval (e : expr) (en : env) : eres :=
     match e with
     | ENone => EV VNone
     | ETrue => EV (VBool true)
+    | EFalse => EV (VBool false)
     | EInt n => EV (VInt n)
     | ENil => EV (VList [])
     | EVar x => EV (en x)
@@ -256,10 +272,16 @@ Section Exec.
         | r => r
         end
     | ECallMerge a => match eval a en with EV (VList vs) => merge_sem vs | EV _ => EStuck | r => r end
+    | EIfExp c a b =>
+        match eval c en with
+        | EV v => match truth v with Some true => eval a en | Some false => eval b en | None => EStuck end
+        | r => r
+        end
+    | EHelper k a => match eval a en with EV v => helper_sem k v | r => r end
     end.
 
   (* ---- statements ------------------------------------------------------------------------------ *)
-  Inductive outcome := ONormal | OBreak | OReturn (v : value) | ORaise (x : exn) | OStuck | OFuel.
+  Inductive outcome := ONormal | OBreak | OContinue | OReturn (v : value) | ORaise (x : exn) | OStuck | OFuel.
   Definition res := (env * outcome)%type.
 
   Definition of_eres (en : env) (r : eres) (k : value -> res) : res :=
@@ -272,7 +294,7 @@ Section Exec.
     | S f =>
       let '(e1, o) := step en in
       match o with
-      | ONormal => while_loop f step e1
+      | ONormal | OContinue => while_loop f step e1
       | OBreak => (e1, ONormal)
       | _ => (e1, o)
       end
@@ -285,7 +307,7 @@ Section Exec.
     | v :: rest =>
       let '(e1, o) := step (set en x v) in
       match o with
-      | ONormal => for_loop x step orelse rest e1
+      | ONormal | OContinue => for_loop x step orelse rest e1
       | OBreak => (e1, ONormal)
       | _ => (e1, o)
       end
@@ -298,10 +320,23 @@ Section Exec.
     | v :: rest =>
       let '(e1, o) := step (set en x v) in
       match o with
-      | ONormal => let '(vs', r) := forfield_loop x step rest e1 in (e1 x :: vs', r)
+      | ONormal | OContinue => let '(vs', r) := forfield_loop x step rest e1 in (e1 x :: vs', r)
       | OBreak => (e1 x :: rest, (e1, ONormal))
       | _ => (e1 x :: rest, (e1, o))
       end
+    end.
+
+  (* for x, y in zip(s._lists, ws): body *)
+  Fixpoint forfieldzip_loop (x y : var) (step : env -> res) (vs ws : list value) (en : env) : list value * res :=
+    match vs, ws with
+    | v :: rest, w :: wrest =>
+      let '(e1, o) := step (set (set en x v) y w) in
+      match o with
+      | ONormal | OContinue => let '(vs', r) := forfieldzip_loop x y step rest wrest e1 in (e1 x :: vs', r)
+      | OBreak => (e1 x :: rest, (e1, ONormal))
+      | _ => (e1 x :: rest, (e1, o))
+      end
+    | _, _ => (vs, (en, ONormal))
     end.
 
   Fixpoint exec (s : stmt) (en : env) : res :=
@@ -335,7 +370,16 @@ Section Exec.
             (set e1 s (VDL (VList l')), o)
         | _ => (en, OStuck)
         end
+    | SForFieldZip x y s e body =>
+        of_eres en (eval e en) (fun w =>
+          match en s, w with
+          | VDL (VList l), VList ws =>
+              let '(l', (e1, o)) := forfieldzip_loop x y (exec body) l ws en in
+              (set e1 s (VDL (VList l')), o)
+          | _, _ => (en, OStuck)
+          end)
     | SBreak => (en, OBreak)
+    | SContinue => (en, OContinue)
     | SReturn e => of_eres en (eval e en) (fun v => (en, OReturn v))
     | SRaise x => (en, ORaise x)
     | STry body ks handler =>
@@ -354,7 +398,7 @@ Section Exec.
      | ONormal => EV VNone
      | OReturn v => EV v
      | ORaise x => EX x
-     | OBreak | OStuck => EStuck
+     | OBreak | OContinue | OStuck => EStuck
      | OFuel => EFuel
      end, e1 0%N).
   Definition call_value (body : stmt) (args : list value) : eres := fst (call body args).
@@ -378,6 +422,7 @@ Record code := {
   c_remove : stmt;          (* DependencyList.remove  (self, item) *)
   c_merge : stmt;           (* _merge( *lists ) *)
   c_mro : stmt;             (* mro(cls, getbases) *)
+  c_helpers : list stmt;    (* the other module-level functions of one positional parameter, in source order *)
 }.
 
 Definition no_prop (_ : prop) (_ : value) : eres := EStuck.
@@ -386,12 +431,13 @@ Definition no_call1 (_ : value) : eres := EStuck.
 Definition no_bases (_ : cls) : list cls := [].
 Definition no_mro (_ : cls) : mres := MOutOfFuel.
 Definition no_merge (_ : list value) : eres := EStuck.
+Definition no_helper (_ : nat) (_ : value) : eres := EStuck.
 
 Section Interp.
   Variable C : code.
 
   (* layer 0: the properties of Dependency; nothing is called from them *)
-  Definition call0 := call_value no_prop no_call2 no_call2 no_call1 no_bases no_mro no_merge 0.
+  Definition call0 := call_value no_prop no_call2 no_call2 no_call1 no_bases no_mro no_merge no_helper 0.
   Definition head_ir (d : value) : eres := call0 (c_head C) [d].
   Definition tail_ir (d : value) : eres := call0 (c_tail C) [d].
   Definition prop0 (p : prop) (v : value) : eres :=
@@ -401,15 +447,12 @@ Section Interp.
     | _, _ => EStuck
     end.
 
-  (* layer 1: the methods of DependencyList; they use the properties of Dependency only *)
-  Definition call1 := call_value prop0 no_call2 no_call2 no_call1 no_bases no_mro no_merge 0.
-  Definition call1_self := call_self prop0 no_call2 no_call2 no_call1 no_bases no_mro no_merge 0.
+  (* layer 1a: the read-only members of DependencyList; they use the properties of Dependency only *)
+  Definition call1 := call_value prop0 no_call2 no_call2 no_call1 no_bases no_mro no_merge no_helper 0.
   Definition contains_ir (self item : value) : eres := call1 (c_contains C) [self; item].
   Definition heads_ir (self : value) : eres := call1 (c_heads C) [self].
   Definition tails_ir (self : value) : eres := call1 (c_tails C) [self].
   Definition exhausted_ir (self : value) : eres := call1 (c_exhausted C) [self].
-  Definition remove_ir (self item : value) : eres := call1_self (c_remove C) [self; item].
-  Definition newdl_ir (lists : value) : eres := call1_self (c_init C) [VDL VNone; lists].
   Definition prop1 (p : prop) (v : value) : eres :=
     match p, v with
     | PHeads, VDL _ => heads_ir v
@@ -418,11 +461,23 @@ Section Interp.
     | _, _ => prop0 p v
     end.
 
+  (* layer 1b: __init__ and remove, called for their effect on self; they may use all the properties *)
+  Definition call1_self := call_self prop1 contains_ir no_call2 no_call1 no_bases no_mro no_merge no_helper 0.
+  Definition remove_ir (self item : value) : eres := call1_self (c_remove C) [self; item].
+  Definition newdl_ir (lists : value) : eres := call1_self (c_init C) [VDL VNone; lists].
+
+  (* layer 1c: helper functions: they read their argument *)
+  Definition helper_ir (k : nat) (arg : value) : eres :=
+    match nth_error (c_helpers C) k with
+    | Some body => call_value prop1 contains_ir no_call2 no_call1 no_bases no_mro no_merge no_helper 0 body [arg]
+    | None => EStuck
+    end.
+
   (* layer 2: _merge; the while loop gets 1 + (sum of the lengths of the arguments) iterations, as Model.Mro.merge *)
   Definition args_fuel (args : list value) : nat :=
     S (fold_right (fun v n => match v with VList l => length l | _ => 0 end + n) 0 args).
   Definition merge_ir (args : list value) : eres :=
-    call_value prop1 contains_ir remove_ir newdl_ir no_bases no_mro no_merge (args_fuel args) (c_merge C) [VList args].
+    call_value prop1 contains_ir remove_ir newdl_ir no_bases no_mro no_merge helper_ir (args_fuel args) (c_merge C) [VList args].
 
   (* layer 3: mro, recursive on fuel as Model.Mro.mro *)
   Inductive ires := IOk (l : list value) | IValueError | IOutOfFuel | IStuck.
@@ -458,7 +513,7 @@ Section Interp.
       | S f =>
         mres_of (call_value prop1 contains_ir remove_ir newdl_ir getbases_f
                             (fun b => match mro_ir f b with Some r => r | None => MOutOfFuel end)
-                            merge_ir 0 (c_mro C) [VObj c; VNone])
+                            merge_ir no_helper 0 (c_mro C) [VObj c; VNone])
       end.
   End WithBases.
 End Interp.
